@@ -68,7 +68,7 @@ CHECKS = {
                 design="4/C01",
                 text="MC: for 3-4 messages of 1-3 frames, windows 1-2, Auto(1-2), FIFO capacities 1-2, what recv has returned is always a prefix of what was submitted and eventually everything "
                      "arrives; TLC refutes the variant that lets the current transfer overtake buffered ones. Conformance: every configuration differing from the base in at most 2 (thorough 3) of "
-                     "16 parameters (604 / 5740 runs): C01_Order, C01_Once, C01_NotBeforeSent, C01_Intact (byte-for-byte re-encoding incl. all sections) on every recv, C01_Delivers (nothing "
+                     "18 parameters incl. 1-3 concurrent links on 1-2 sessions (640 / 7520 runs): C01_Order, C01_Once, C01_NotBeforeSent, C01_Routing, C01_Intact (byte-for-byte re-encoding incl. all sections) on every recv per link, C01_Delivers (nothing "
                      "stalls or is lost) and C01_Outcome (every send reports accepted exactly once) at the end.",
                 note="schedules are sampled (chunk patterns, capacities, randomised select, multi-threaded runs in thorough), not enumerated; the capacity of the in-memory transport is not varied (DESIGN.md)"),
     "C02": dict(technique="TLC model check of sender-side settlement under arbitrary disposition histories (Settle.tla, safety + echo liveness); TLC-enumerated disposition / batchable-send / await scripts over two links (SettleGen.tla) and receiver-side disposal scripts (RecvGen.tla) executed lock-step; traces validated by the TLA+ observer",
